@@ -5,7 +5,10 @@ modes — replicated (`jit`), pmap + int16-quantized statistics/preconditioners 
 `best_effort_memory_usage_reduction`, forced host devices) and sharded (`shard_optimizer_states`, `jit`
 under a one-device mesh) — over fault histories: NaN / +Inf / -Inf / 0 / 1e30 / 1e-30 / 1e12 / 1e-12
 gradients (whole tensor or one entry) on step subsets x failure thresholds {0, 1e-30, 0.1, 1e30} x
-matrix_epsilon {0, 1e-6, 1e-12} x Newton/eigh x refresh interval {1, 2, 3}.
+matrix_epsilon {0, 1e-6, 1e-12} x Newton/eigh x refresh interval {1, 2, 3}; the same observables for the other root paths:
+LOBPCG-deflated Newton roots (`lobpcg_topk_precondition`, incl. gradients whose first row is zero: K6 of C01), low-rank packed
+roots (`compression_rank` 1, -1, 2: packed dim x (|r|+2) slots next to full small ones) and frequent directions
+(`frequent_directions` + `reuse_preconditioner`: the root is warm-started from the stored packed sketch).
 
 Correspondence (K, policy EXACT): per step and slot the reported error (float32 bit pattern of
 `training_metrics.inverse_pth_root_errors`) and the refresh interval are handed to the Lean slot automaton
@@ -18,7 +21,10 @@ last changed (then the candidate must differ bitwise).
 
 Search oracle (S, no reference to the model): after every step every stored preconditioner leaf is finite;
 a slot that changed bitwise did so on a refresh step and its reported error is finite and < float32(threshold);
-the update is finite as long as every gradient so far was zero or of magnitude 1e-12..1e12.
+the update is finite as long as every gradient so far was zero or of magnitude 1e-12..1e12; on a non-refresh step the slot is not
+the raw statistics slice (the `efficient_cond` sentinel carried with error = threshold must never be accepted).
+A worker that is still running long after all others finished (LAPACK SVD on garbage under a mutated gate) is killed and
+reported next to the violations of the other tasks; a hang alone is an infrastructure outcome (exit 2).
 """
 import itertools
 import os
